@@ -31,10 +31,11 @@ def prepare_actuator_lattice(shape, Nact, sep, dtype):
     # }
     #
     # assign poke_arr[iyy, ixx] = actuators[mask] in the next step
-    actuators = np.zeros(Nact, dtype=dtype)
+    # Nact is (X, Y); arrays are indexed [y, x]
+    Nactx, Nacty = Nact
+    actuators = np.zeros((Nacty, Nactx), dtype=dtype)
 
     cy, cx = [s//2 for s in shape]
-    Nactx, Nacty = Nact
     skip_samples_x, skip_samples_y = sep
     # python trick; floor division (//) rounds to negative inf, not zero
     # because FFT grid alignment biases things to the left, if Nact is odd
